@@ -171,6 +171,7 @@ class LoopSummary:
     stored_roots: Tuple[str, ...] = ()
     pre_env: Dict[str, Any] = field(default_factory=dict)
     assigned: Tuple[str, ...] = ()
+    invariants: List[Any] = field(default_factory=list)
 
 
 class State:
@@ -231,6 +232,7 @@ class Interp:
         self.max_paths = max_paths
         self.inline_filter = inline_filter
         self.axioms = axioms
+        self.invariants = False  # Houdini order invariants on loops (opt-in: costs a few entailment queries per loop)
         self.n = 0
         self.allocs: Dict[str, Tuple] = {}
         self.stored_roots: List[str] = []
@@ -361,6 +363,80 @@ class Interp:
         if isinstance(v, str):
             return Aff.atom(("str", v))
         return Aff.atom(("obj", repr(v)))
+
+    def value_at(self, st: State, hpos: int, v: Any) -> Aff:
+        """Scalar value of `v` as of heap position `hpos` (the time of an event)."""
+        if isinstance(v, Dual):
+            return v.snap if isinstance(v.snap, Aff) else self.value_at(st, hpos, v.view)
+        if isinstance(v, View):
+            if all(isinstance(c, Aff) for c in v.idx):
+                r = self.load_at(st, hpos, v.root, v.idx)
+                if isinstance(r, Aff):
+                    return r
+            return Aff.atom(("agg", v.root, v.idx, hpos))
+        return self.scalar(st, v)
+
+    def _houdini(self, summ: "LoopSummary", pre: State) -> List[Tuple]:
+        """Inductive order invariants among loop-carried scalars (candidates x<=y, x>=x0, x<=x0)."""
+        names = []
+        for nm in summ.assigned:
+            v0 = summ.pre_env.get(nm)
+            if isinstance(v0, (Aff, Dual)) or (isinstance(v0, View) and not v0.idx):
+                names.append(nm)
+        names = names[:8]
+        if not names:
+            return []
+        lv = {nm: Aff.atom(("lv", nm, summ.loop_id)) for nm in names}
+        pre_val = {nm: self.scalar(pre, summ.pre_env[nm]) for nm in names}
+        cands: List[Tuple[str, Tuple, Any]] = []  # (description, cond on lv atoms, builder for end values)
+        for x in names:
+            for y in names:
+                if x != y:
+                    cands.append((f"{x}<={y}", cmp_cond("<=", lv[x], lv[y]), ("le", x, y)))
+            if not any(isinstance(a, tuple) and a[0] in ("lv", "hav", "unk") for a in pre_val[x].atoms()):
+                cands.append((f"{x}>=init", cmp_cond(">=", lv[x], pre_val[x]), ("ge0", x)))
+                cands.append((f"{x}<=init", cmp_cond("<=", lv[x], pre_val[x]), ("le0", x)))
+        # initially true?
+        alive = []
+        for desc, c, b in cands:
+            if b[0] == "le":
+                ok0 = pre.facts.decide(cmp_cond("<=", pre_val[b[1]], pre_val[b[2]])) is True
+            else:
+                ok0 = True
+            if ok0:
+                alive.append((desc, c, b))
+        iter_paths = [bp for bp in summ.paths if bp.outcome in ("fall", "continue")]
+        for _ in range(6):
+            changed = False
+            keep = []
+            for desc, c, b in alive:
+                okp = True
+                for bp in iter_paths:
+                    f = bp.state.facts.copy()
+                    for _, c2, _ in alive:
+                        f.add(c2)
+                    if f.infeasible():
+                        continue
+                    def endv(nm: str) -> Aff:
+                        v = bp.state.env.get(nm)
+                        return self.scalar(bp.state, v) if v is not None else lv[nm]
+                    if b[0] == "le":
+                        q = cmp_cond("<=", endv(b[1]), endv(b[2]))
+                    elif b[0] == "ge0":
+                        q = cmp_cond(">=", endv(b[1]), pre_val[b[1]])
+                    else:
+                        q = cmp_cond("<=", endv(b[1]), pre_val[b[1]])
+                    if f.decide(q) is not True:
+                        okp = False
+                        break
+                if okp:
+                    keep.append((desc, c, b))
+                else:
+                    changed = True
+            alive = keep
+            if not changed:
+                break
+        return [c for _, c, _ in alive]
 
     # ------------------------------------------------------------- entry point
     def run(self, fn: FuncInfo, args: Optional[Dict[str, Any]] = None, state: Optional[State] = None) -> List[PathResult]:
@@ -520,6 +596,9 @@ class Interp:
         """Value as bound to a name / parameter: snapshot potential scalars."""
         if isinstance(v, View) and v.idx and all(isinstance(c, Aff) for c in v.idx):
             return Dual(v, self.load(st, v))
+        if isinstance(v, View) and not v.idx and (v.root.startswith("ret#") or v.root.startswith("iret#")):
+            # a call result bound to a name: scalar uses see the value returned (python ints are immutable)
+            return Dual(v, self.load(st, v))
         return v
 
     def assign(self, t: ast.expr, v: Any, st: State, node: ast.AST) -> None:
@@ -595,6 +674,14 @@ class Interp:
             summ.index = index
             for r in body_res:
                 summ.paths.append(r)
+            if self.invariants:
+                inv = self._houdini(summ, st0)
+                summ.invariants = inv
+                for c in inv:
+                    for ex in exit_states:
+                        ex.facts.add(c)
+                    for r in body_res:
+                        r.state.facts.add(c)
             # normal exits
             for ex in exit_states:
                 self.ev(ex, "loop", s, loop=summ)
@@ -1108,9 +1195,10 @@ class Interp:
                 return self.call_method(View(base_root, ()), meth, args, kwargs, st, node)
             # indirect call through a table / function value
             ev = self.ev(st, "icall", node, recv=fv, args=tuple(args), kwargs=kwargs, name=repr(fv))
-            for a in args:
+            positions = self._indirect_mod_positions(fv)
+            for i, a in enumerate(args):
                 a = as_view(a)
-                if isinstance(a, View):
+                if isinstance(a, View) and (positions is None or i in positions):
                     self.havoc_root(st, a.root)
             ev.ret = self.fresh_root("iret", ("icall", fv, tuple(args)))
             return [(st, ev.ret)]
@@ -1123,6 +1211,31 @@ class Interp:
         self.ev(st, "call", node, name=repr(fv), args=tuple(args), kwargs=kwargs)
         return [(st, self.fresh("unk"))]
 
+    def registry_of(self, fv: View) -> Optional[str]:
+        """Registry an indirect callee value was taken from: REG[i] or function_from_address(TYPE_X, addrs[i])."""
+        regs = {nm for (_, nm) in self.p.registries}
+        if fv.root.startswith("G:") and fv.root[2:] in regs:
+            return fv.root[2:]
+        org = self.allocs.get(fv.root)
+        if org and org[0] == "call" and str(org[1]).endswith("function_from_address") and org[2]:
+            t = as_view(org[2][0])
+            if isinstance(t, View) and t.root.startswith("G:"):
+                return self.p.dispatch_types().get(t.root[2:])
+        return None
+
+    def _indirect_mod_positions(self, fv: View) -> Optional[set]:
+        """Argument positions some member of the callee's registry may store through (None: unknown callee)."""
+        reg = self.registry_of(fv)
+        if reg is None:
+            return None
+        from .effects import get_effects
+
+        r = self.p.registry(reg)
+        members = [e for e in list(r.entries) + list(r.extra) if isinstance(e, FuncInfo)]
+        if len(members) != len(r.entries) + len(r.extra):
+            return None
+        return get_effects(self.p).modified_positions(members)
+
     def call_user(self, fn: FuncInfo, args: List[Any], kwargs, st: State, node: ast.Call) -> List[Tuple[State, Any]]:
         opaque = fn.name in self.no_inline
         recursive = any(f.fq == fn.fq for f in self.cur_fn)
@@ -1132,6 +1245,10 @@ class Interp:
             ev = self.ev(st, "call", node, name=fn.fq, args=tuple(args), kwargs=kwargs,
                          value="opaque" if opaque else ("recursive" if recursive else "depth"))
             positions = self.no_inline.get(fn.name)
+            if positions is None:
+                from .effects import get_effects
+
+                positions = get_effects(self.p).modified_positions([fn])
             for i, a in enumerate(args):
                 a = as_view(a)
                 if isinstance(a, View) and (positions is None or i in positions):
